@@ -300,8 +300,58 @@ func runC04(c *Ctx) {
 				}
 			}
 		}
+		if pth == nil {
+			// the proof may be checked through a wrapper of the same package: it must hand out a hash with a nil
+			// error only as the result of ProofToHash on its own key, message and proof parameters
+			for _, ci := range callInstrs(fn) {
+				g := ci.Common().StaticCallee()
+				if g == nil || g.Blocks == nil || g.Pkg != fn.Pkg || g == fn {
+					continue
+				}
+				var inner ssa.CallInstruction
+				for _, cj := range callInstrs(g) {
+					if o := calleeObj(cj); o != nil && o.Name() == "ProofToHash" {
+						inner = cj
+					}
+				}
+				if inner == nil {
+					continue
+				}
+				c.sites++
+				why := ""
+				isOwnParam := func(v ssa.Value) bool {
+					p, ok := stripConvNoBind(v).(*ssa.Parameter)
+					return ok && p.Parent() == g
+				}
+				if r := callRecv(inner); r == nil || !isOwnParam(r) {
+					why = "the inner ProofToHash is not evaluated under the wrapper's key parameter"
+				}
+				for _, a := range callArgs(inner) {
+					if !isOwnParam(a) {
+						why = "the inner ProofToHash is not evaluated on the wrapper's message and proof parameters"
+					}
+				}
+				ei := errResultIdx(g)
+				if ei < 0 {
+					why = "the wrapper returns no error"
+				} else {
+					for _, rp := range returnPaths(g, ei) {
+						if rp.Kind == RetFail {
+							continue
+						}
+						if !hasErrNil(rp.Atoms(), inner) {
+							why = "the wrapper can return a hash with a nil error at " + w.Pos(rp.Ret.Pos()) + " without ProofToHash having succeeded for this key (e.g. an output remembered per message and proof only: a proof verified once under one key is then accepted under any other key)"
+						}
+					}
+				}
+				c.Check(fname(g)+"#faithful-proof-wrapper", g.Pos(), why == "", ifelse(why == "", "returns a hash only as the result of ProofToHash(key, message, proof) == nil on its own parameters", why))
+				if why == "" {
+					pth = ci
+				}
+			}
+		}
 		if pth == nil || ch == nil {
-			c.Undecided(fname(fn)+"#accept-gate", fn.Pos(), "ProofToHash/choose calls not found")
+			c.Fail(fname(fn)+"#accept-gate", fn.Pos(), "the credential is accepted without a ProofToHash on the verifier's key, message and proof (directly or through a faithful wrapper) and a choose call")
 			continue
 		}
 		subUsers := paramNamed(fn, "subUsers")
